@@ -578,6 +578,7 @@ func c13Run(c *Ctx, r *zsimrt.Run) {
 
 func c13Exec(c *Ctx, sc *c13Scenario) {
 	out := runTraversal(workerT, sc, false)
+	c.Trace(out.Digest + strings.Join(out.Events, ",") + strings.Join(out.Problems, ";"))
 	c.Count("traversals", 1)
 	c.Count("sched-steps", out.Steps)
 	c.Count("sched-choices", out.Choices)
